@@ -372,8 +372,13 @@ func scenario(c *vk.Ctx, i int) {
 		cur, _ := st.GetCurrSeqNum(fix.StorageID{Side: fix.Outgoing})
 		l2, err := f.Connect("c05-second")
 		if err == nil && l2.Logon(role, 30, 5*time.Second) {
+			// the later session keeps sending for longer than two heartbeat periods of the session that is gone (N=1):
+			// nothing that session left behind may draw numbers from the shared store meanwhile
 			for k := 0; k < 3; k++ {
 				_ = l2.S.Send(fixgen.CreateMarketDataRequestReject("second-" + strconv.Itoa(k)))
+				if k < 2 && i%6 == 0 {
+					time.Sleep(1300 * time.Millisecond)
+				}
 			}
 			time.Sleep(50 * time.Millisecond)
 			frames2, _ := l2.Frames()
@@ -389,7 +394,7 @@ func main() {
 	// one GOMAXPROCS setting per shard
 	gmp := []int{16, 1, 2}[c.Shard%3]
 	runtime.GOMAXPROCS(gmp)
-	c.Rule("session i: either role on the full stack (real Initiator.Serve / Acceptor.ListenAndServe goroutines on a scripted net.Conn), logon by the scripted peer with N=1 (every third group of four: its Logon carries ResetSeqNumFlag=Y; numbering must then still be consecutive from the session's first message, from 1 if the session itself announces a reset), then G in {1,2,4,8,16} goroutines x M in 3..16 application sends (a fresh message object per send, or in every second pair of scenarios one object per goroutine sent M times) in bursts spread over 2.6 s (so that heartbeat and test-request timers expire in between), while the peer injects TestRequests and damaged messages (replies and rejects originate on the inbound goroutine) or stays silent; handler buffer {0,1,10}; the peer reads instantly or takes 100/300 us per message (so that bursts fill the buffer); a store decorator sleeps 0..2 ms after the counter increment, inside Save and in an outgoing handler; one GOMAXPROCS value per shard {16,1,2}; optional second session on the same counter store. Oracle on the peer-side capture (reference splitter): 34 = c0+1,c0+2,... in wire order; 49/56; 52 parses, never goes backwards along the wire, is not later than the write, lies within [call,return] of its Send; porcupine counter model over the Send operations. distinct = (role, interleaving signature of source kinds on the wire, G, M, buffer); non-trivial = at least 2 source kinds on the wire")
+	c.Rule("session i: either role on the full stack (real Initiator.Serve / Acceptor.ListenAndServe goroutines on a scripted net.Conn), logon by the scripted peer with N=1 (every third group of four: its Logon carries ResetSeqNumFlag=Y; numbering must then still be consecutive from the session's first message, from 1 if the session itself announces a reset), then G in {1,2,4,8,16} goroutines x M in 3..16 application sends (a fresh message object per send, or in every second pair of scenarios one object per goroutine sent M times) in bursts spread over 2.6 s (so that heartbeat and test-request timers expire in between), while the peer injects TestRequests and damaged messages (replies and rejects originate on the inbound goroutine) or stays silent; handler buffer {0,1,10}; the peer reads instantly or takes 100/300 us per message (so that bursts fill the buffer); a store decorator sleeps 0..2 ms after the counter increment, inside Save and in an outgoing handler; one GOMAXPROCS value per shard {16,1,2}; optional second session on the same counter store (in half of those the second session goes on sending for 2.6 s after the first connection was lost). Oracle on the peer-side capture (reference splitter): 34 = c0+1,c0+2,... in wire order; 49/56; 52 parses, never goes backwards along the wire, is not later than the write, lies within [call,return] of its Send; porcupine counter model over the Send operations. distinct = (role, interleaving signature of source kinds on the wire, G, M, buffer); non-trivial = at least 2 source kinds on the wire")
 	c.Assume("precondition of the statement: no handler refuses, the stores do not fail; clocks: wall clock without steps during a 3 s scenario (2 ms tolerance)")
 	n := c.Pick(24, 500) // per shard
 	var wg sync.WaitGroup
